@@ -26,7 +26,7 @@ EXTENDS LiskBFT, Json, SequencesExt
 
 CONSTANTS Win, InitW, InitPCT, InitCertT, Gens,    \* Gens: generator list (sequence of validators)
           ParamChoices,   \* sequence of [pcT, certT, w, gens] a block may switch to
-          MaxChg, MaxLen, Now, MaxSteps, MaxDel, MaxTie,
+          MaxChg, MaxLen, Now, MaxSteps, MaxDel, MaxTie, FinalityLag,
           Mutations,      \* set of mutation names enabled in this configuration
           DeepRevert,     \* TRUE: deletes / restarts / tie breaks only once something is final (simulation runs aimed at reverts down to the finalized height)
           DumpEvery
@@ -239,7 +239,12 @@ TieBreakCand ==
 TieProbes ==
   IF Len(chain) >= 1 /\ Tip.slot < Now /\ recvKnown /\ Tip.h > fin /\ TieBreakCand.gen # Tip.gen /\ TieBreakCand.mhp = Tip.mhp
   THEN {[TieBreakCand EXCEPT !.signer = OtherGen(TieBreakCand.gen), !.mut = "tiebreak-sig-wrongkey"],
-        [TieBreakCand EXCEPT !.stateRoot = "bad", !.mut = "tiebreak-stateroot"]}
+        [TieBreakCand EXCEPT !.stateRoot = "bad", !.mut = "tiebreak-stateroot"],
+        \* statically invalid competitors (roots that do not cover the payload, a malformed transaction, an oversized payload)
+        [TieBreakCand EXCEPT !.txRoot = "bad", !.ntx = 1, !.mut = "tiebreak-txroot"],
+        [TieBreakCand EXCEPT !.assetRoot = "bad", !.mut = "tiebreak-assetroot"],
+        [TieBreakCand EXCEPT !.txStatic = "bad", !.ntx = 1, !.mut = "tiebreak-txstatic"],
+        [TieBreakCand EXCEPT !.payload = "toolarge", !.ntx = 1, !.mut = "tiebreak-payload"]}
   ELSE {}
 \* a second block by the tip's own generator for the same height (double forging) is discarded; so is the tip itself
 DoubleForgeProbe ==
@@ -293,6 +298,10 @@ FinalMonotone == [][fin' >= fin]_vars
 FinalSane == fin <= Len(chain) /\ fin >= V.mhpc /\ (Len(chain) > 0 => fin <= Tip.h)
 \* C04: blocks at or below the finalized height are never removed
 FinalizedIrreversible == [][\A i \in 1..fin : i <= Len(chain') /\ chain'[i] = chain[i]]_vars
+\* liveness of finality, as a state predicate: when every slot since genesis was used (all validators online, one chain,
+\* unchanged parameters of three equal weights with threshold 2) a block is final two blocks after it was applied
+FullParticipation == \A i \in 1..Len(chain) : chain[i].slot = i /\ chain[i].chg = 0
+FinalityKeepsUp == (FullParticipation /\ NVal = 3 /\ InitPCT = 2) => fin >= Len(chain) - FinalityLag
 \* C05: delete restores the BFT state that existed before the block was applied
 StackShape == Len(vstack) = Len(chain) + 1
 \* C03: every probe violates at least one rule, every offered successor satisfies all of them
